@@ -231,13 +231,14 @@ def run_e2e(ctx, res, jinja2):
                 continue
         na = rng.randrange(0, 6)
         args = list(range(1, na + 1))
-        kwn = rng.sample(["a", "b", "c", "d", "z", "y"], rng.randrange(0, 4))
+        # keyword names include Python keywords: the code generator passes those through a dict (`**{'class': …}`)
+        kwn = rng.sample(["a", "b", "c", "d", "z", "y", "class", "for", "import"], rng.randrange(0, 4))
         kw = [(k2, 60 + i) for i, k2 in enumerate(kwn)]
-        shape = rng.choice(["plain", "plain", "star", "callblock", "python", "python-async"])
+        shape = rng.choice(["plain", "plain", "star", "callblock", "python", "python-async", "mixed", "mixed", "mixed-callblock"])
         jobs.append((params, defaults, ck, cv, c, args, kw, shape))
     reqs = []
     for params, defaults, ck, cv, c, args, kw, shape in jobs:
-        kw2 = list(kw) + ([("caller", CALLER_TOKEN)] if shape == "callblock" else [])
+        kw2 = list(kw) + ([("caller", CALLER_TOKEN)] if shape in ("callblock", "mixed-callblock") else [])
         reqs.append([Atom("macro"), params, ck, cv, c, args, [[k, v] for k, v in kw2]])
     replies = core.driver_batch(reqs)
     renders, distinct, samples = 0, set(), []
@@ -255,6 +256,16 @@ def run_e2e(ctx, res, jinja2):
             src = msrc + "{{ m(*pos, **kwd) }}"
         elif shape == "callblock":
             src = msrc + "{%% call m(%s) %%}X{%% endcall %%}" % callargs
+        elif shape in ("mixed", "mixed-callblock"):
+            # some positional arguments written out, the rest as *pos2; some keywords written out, the rest as **kwd2
+            sp, sk = rng.randrange(0, len(args) + 1), rng.randrange(0, len(kw) + 1)
+            parts = [str(a) for a in args[:sp]] + [f"{k}={v}" for k, v in kw[:sk]]
+            if sp < len(args) or rng.random() < 0.5:
+                parts.append("*pos2")
+            if sk < len(kw) or rng.random() < 0.5:
+                parts.append("**kwd2")
+            mixed_data = {"pos2": args[sp:], "kwd2": dict(kw[sk:])}
+            src = msrc + ("{{ m(%s) }}" if shape == "mixed" else "{%% call m(%s) %%}X{%% endcall %%}") % ", ".join(parts)
         else:
             src = msrc
         try:
@@ -271,7 +282,7 @@ def run_e2e(ctx, res, jinja2):
                 got = asyncio.run(go())
             else:
                 t = env.from_string(src)
-                got = t.render(o=55, pos=args, kwd=dict(kw))
+                got = t.render(o=55, pos=args, kwd=dict(kw), **(mixed_data if shape.startswith("mixed") else {}))
         except TypeError as e:
             got = None
             emsg = str(e)
@@ -289,7 +300,8 @@ def run_e2e(ctx, res, jinja2):
     return {"renders": renders, "distinct": len(distinct), "samples": samples,
             "rule": (f"{n} random macros (0-4 parameters, 0-3 defaults that are constants / earlier parameter + 100 / "
                      "an outer variable, implicit or explicit caller, kwargs, varargs) called with 0-5 positional and "
-                     "0-3 keyword arguments (known, unknown, duplicate-of-filled) as {{ m(..) }}, m(*pos, **kw), "
+                     "0-3 keyword arguments (known, unknown, duplicate-of-filled, Python keywords as names) as {{ m(..) }}, m(*pos, **kw), "
+                     "mixed written-out / *rest / **rest spellings, "
                      "{% call %}, and from Python through Template.module (sync and async)")}
 
 
